@@ -87,6 +87,12 @@ CHECKS = {
         "note": "Trusts the reference multimap in props/c16.py; sources with case-colliding keys are only given to add-based entry points (documented undefined otherwise).",
         "design_ref": "DESIGN.md section 4, C16",
     },
+    "C18": {
+        "technique": "exhaustive enumeration over the keyword universe derived at run time with inspect.signature (every keyword x 2 values x 2 schemes x 3 supply paths x 3 entry points; thorough: every ordered keyword pair) + Hypothesis-drawn base contexts; oracle: pool identity relation (one differing keyword => distinct pools or rejection; none => identical pool, also under case / default-port spellings), socket-level reuse check on the in-memory network, deep snapshots of manager defaults and caller dicts",
+        "text": "For every keyword any pool or connection constructor accepts, two request contexts that differ in exactly that keyword are resolved through connection_from_url / _host / _context, as manager default versus pool_kwargs and as two pool_kwargs; they must yield different pool objects or be rejected, equal contexts must yield the identical object, an unknown keyword must be rejected, a request under the second context must open its own socket, and connection_pool_kw, headers and the caller's dicts must be unchanged afterwards.",
+        "note": "Trusts the two-values table in props/c18.py (fallback: two strings for keywords added later) and vlib/fakenet.py for the reuse clause.",
+        "design_ref": "DESIGN.md section 4, C18",
+    },
     "C19": {
         "technique": "exhaustive enumeration of the (total,connect,read) x placement x connect-duration x history x server-behaviour grid on an in-memory socket with a virtual clock; oracle: independently computed min() arithmetic on what the socket was told; Hypothesis floats for bound/monotonicity relations",
         "text": "The whole valid grid named in the property (125 value triples x 5 placements x 7 connect durations x fresh/reused/second request x answering/silent server) is executed through the real pool/connection/http.client stack; the timeout passed to connect and the one in force when the response wait starts are read off the fake socket and compared with the reference; invalid values are tried at every entry point.",
